@@ -178,6 +178,9 @@ def cell_in(v, is_ident, single):
     return [hexf(x), hexf(lo), hexf(hi)]
 
 
+_F32 = [False]
+
+
 def tok_out(v, is_ident):
     if v is np.ma.masked or isinstance(v, np.ma.core.MaskedConstant):
         return "masked"
@@ -197,6 +200,10 @@ def tok_out(v, is_ident):
         return "nan"
     if is_ident:
         return str(int(x)) if x == int(x) else "f:" + hexf(x)
+    if _F32[0] and abs(x) < 3e38:
+        # the catalogue under test holds numpy.float32 attributes: a value read back is compared at the precision
+        # the attribute has (the text writers print the shortest decimal that denotes the same float32)
+        x = float(np.float32(x))
     return hexf(x)
 
 
@@ -214,6 +221,12 @@ def observe(job):
     ext, prefix = job["ext"], job["prefix"]
     shape = job_shape(job)
     rows = make_rows(shape, job["seed"])
+    _F32[0] = job["seed"] % 3 == 1
+    if _F32[0]:
+        # measurements taken from single-precision maps reach the writers as numpy.float32 attributes; the
+        # catalogue under test is then those values (float32 -> double is exact) and every format must keep them
+        rows = [(t, {n: (np.float32(v) if isinstance(v, float) and (v != v or v == 0 or 1e-30 < abs(v) < 1e30) else v)
+                     for n, v in vals.items()}) for t, vals in rows]
     single = ext == "fits"
     rec = {"id": job["id"], "base": "o", "ext": ext, "prefix": prefix, "err": "", "files": [],
            "cat": [{"t": t, "c": [cell_in(vals[n], n in ident, single) for n in names[t]]}
